@@ -16,7 +16,7 @@ META = {
     'rule_text': 'rule instances: each of the 7 parameters advanced by its own rate times (epoch - reference epoch).days/365.25, rates and '
                  'labels passed on, new reference epoch; conform14 = conform7 applied to the propagated set with point and covariance '
                  'passed through; the two ATRF wrappers use the plate-motion set and its negation; plate-motion parameters are literal '
-                 'zeros and the ITRF2014 and ATRF2014 sets carry identical numbers; __add__ has no side effect',
+                 'zeros and the ITRF2014 and ATRF2014 sets carry identical numbers; __add__ has no side effect; slot-by-slot negation (rates included, independent of the python type of a parameter); statelessness of conform14 and the wrappers with memo-key analysis',
     'explanation': 'Static: Transformation.__add__ is abstractly evaluated on a symbolic parameter set (every slot compared with the linear '
                    'propagation formula), conform14 and the wrappers are evaluated with their callees kept as opaque call atoms (wiring), the '
                    'plate-motion sets are folded from the catalogue, and the effect analysis of C09 is re-run on __add__. Decides the named '
